@@ -39,15 +39,16 @@ macro "stage_finish" : tactic =>
 
 section rk4
 open Gen.Rk4
-theorem rk4_stage_eqs {n : Nat} (Kc : Nat → Vector K n) (y k1 : Vector K n) (x h : K) :
-    (stages (f := openF Kc) (y := y) (h := h) (k1 := k1) (x := x)).calls
+theorem rk4_stage_eqs {n : Nat} (Kc : Nat → Vector K n) (y k1 : Vector K n) (x h : K) (last : Bool) (xend : K)
+    (hl : last = true → xend = x + h) :
+    (stages (f := openF Kc) (y := y) (h := h) (k1 := k1) (x := x) (last := last) (xend := xend)).calls
       = #[rkArg rk4Tab x h y (kOf k1 Kc) 1, rkArg rk4Tab x h y (kOf k1 Kc) 2, rkArg rk4Tab x h y (kOf k1 Kc) 3] := by
-  simp [stages, stages_loop1, stages_loop2, stages_loop3, rkArg, rowDot, rk4Tab, openF, kOf, num_lit, qval, z, List.zipIdx]
+  have hx : (if last = true then xend else x + h) = x + h := by cases last <;> simp_all
+  simp [stages, hx, stages_loop1, stages_loop2, stages_loop3, rkArg, rowDot, rk4Tab, openF, kOf, num_lit, qval, z, List.zipIdx]
   stage_finish
 
-theorem rk4_update_eq {n : Nat} (F : Nat → K → Vector K n → Vector K n) (y k1 k2 k3 k4 : Vector K n) (x h : K)
-    (last : Bool) (xend : K) :
-    (update (f := F) (last := last) (xend := xend) (x := x) (h := h) (y := y) (k1 := k1) (k2 := k2) (k3 := k3) (k4 := k4)).y
+theorem rk4_update_eq {n : Nat} (F : Nat → K → Vector K n → Vector K n) (y k1 k2 k3 k4 : Vector K n) (xph h : K) :
+    (update (f := F) (xph := xph) (h := h) (y := y) (k1 := k1) (k2 := k2) (k3 := k3) (k4 := k4)).y
       = rkNew rk4Tab h y (fun l => if l = 0 then k1 else if l = 1 then k2 else if l = 2 then k3 else k4) := by
   simp [update, update_loop1, rkNew, rowDot, rk4Tab, num_lit, qval, List.zipIdx]
   stage_finish
@@ -57,14 +58,16 @@ section rk23
 open Gen.Rk23
 /-- RK23: the three calls of the stage region are stages 2, 3 and the FSAL stage, whose argument
     is the propagated state itself -/
-theorem rk23_stage_eqs {n : Nat} (Kc : Nat → Vector K n) (y k1 : Vector K n) (x h : K) :
-    (stages (f := openF Kc) (y := y) (h := h) (k1 := k1) (x := x)).calls
+theorem rk23_stage_eqs {n : Nat} (Kc : Nat → Vector K n) (y k1 : Vector K n) (x h : K) (last : Bool) (xend : K)
+    (hl : last = true → xend = x + h) :
+    (stages (f := openF Kc) (y := y) (h := h) (k1 := k1) (x := x) (last := last) (xend := xend)).calls
       = #[rkArg rk23Tab x h y (kOf k1 Kc) 1, rkArg rk23Tab x h y (kOf k1 Kc) 2, rkArg rk23Tab x h y (kOf k1 Kc) 3] := by
-  simp [stages, stages_loop1, stages_loop2, stages_loop3, rkArg, rowDot, rk23Tab, openF, kOf, num_lit, qval, z, one_q, List.zipIdx]
+  have hx : (if last = true then xend else x + h) = x + h := by cases last <;> simp_all
+  simp [stages, hx, stages_loop1, stages_loop2, stages_loop3, rkArg, rowDot, rk23Tab, openF, kOf, num_lit, qval, z, one_q, List.zipIdx]
   stage_finish
 
-theorem rk23_new_state {n : Nat} (Kc : Nat → Vector K n) (y k1 : Vector K n) (x h : K) :
-    (stages (f := openF Kc) (y := y) (h := h) (k1 := k1) (x := x)).yt = rkNew rk23Tab h y (kOf k1 Kc) := by
+theorem rk23_new_state {n : Nat} (Kc : Nat → Vector K n) (y k1 : Vector K n) (x h : K) (last : Bool) (xend : K) :
+    (stages (f := openF Kc) (y := y) (h := h) (k1 := k1) (x := x) (last := last) (xend := xend)).yt = rkNew rk23Tab h y (kOf k1 Kc) := by
   simp [stages, stages_loop1, stages_loop2, stages_loop3, rkNew, rowDot, rk23Tab, openF, kOf, num_lit, qval, z, List.zipIdx]
   stage_finish
 
